@@ -23,19 +23,35 @@ RULE = (
     "1..2 linear objects from {signed function list, rectangular mapper}, with/without regularization): "
     "operated_mapping_matrix == A M, D and F == noise-weighted real+imaginary Gram products of the transformed mapping "
     "matrix (of the implementation's own transformed matrix, and end to end of A M) plus the explicit eps on "
-    "unregularized parameters, F symmetric. Non-trivial = at least two distinct non-zero baselines and a mask with both "
-    "masked and unmasked pixels (matrix sub-check: additionally a negative matrix entry); distinct = SHA-1 of the "
-    "canonical case."
+    "unregularized parameters, F symmetric. family: 2-4 TransformerDFT configurations built one after the other inside "
+    "one case (all constructed before any is used, preload on and off, some through aa.Interferometer, the first one "
+    "re-built at the end) that share frame shape, pixel scales, origin, byte-identical baselines and the number of "
+    "unmasked pixels and differ in exactly one thing - which pixels are unmasked (move one pixel / mirror / shift / "
+    "fresh subset), the origin, the pixel scales, one baseline, or nothing - each checked against the dense operator of "
+    "its own configuration (grid, visibilities_from, transform_mapping_matrix, image_from). cancel: masks symmetric "
+    "under a mirror map (point reflection about the mask origin, x-flip, y-flip) with zero origin on the negated axes "
+    "(mirrored centres exactly negated) and compatible baselines (any / v=0 / u=0, plus zero and generic ones), matrix "
+    "columns exactly antisymmetric (single pair or all pairs), exactly symmetric, summing exactly to zero, zero, or "
+    "generic (first column always antisymmetric, second symmetric), visibilities with exactly zero real or imaginary "
+    "parts: transformed matrix, visibilities_from of each column, image_from, util kernels, the data-vector kernel, "
+    "and D / F of inversions fed (i) through the transformer and (ii) with a preloaded transformed matrix whose "
+    "antisymmetric columns are purely imaginary and symmetric columns purely real by construction. Non-trivial = at "
+    "least two distinct non-zero baselines and a mask with both masked and unmasked pixels (matrix: additionally a "
+    "negative entry; family: >= 2 distinct layouts and a non-zero baseline; cancel: a non-zero baseline and entries "
+    "with Re == 0 != Im and with Im == 0 != Re present); distinct = SHA-1 of the canonical case."
 )
 ASSUMPTIONS = [
     "a stand-in `pylops.LinearOperator` base class (vp/stubs/pylops.py) is installed so TransformerDFT can be constructed; the DFT code never calls into it",
     "pixel centres follow C02's closed form y=((H-1)/2-i)*sy+oy, x=(j-(W-1)/2)*sx+ox, radians = arcsec*pi/648000; the transformer's grid is compared to it at rtol 1e-12 plus 1e-12 of (largest |coordinate| + one pixel)",
     "tolerances: values 1e-9 relative to the sum of the magnitudes of the summed terms (|phase| <= ~2200 rad so cos/sin carry <= ~1e-12 absolute error); preload vs direct 1e-12 on the same scale; D and F 1e-9 of the largest sum of term magnitudes; symmetry 1e-12; every tolerance scale has an absolute floor of 1e-280 so that denormal inputs (whose products underflow) are not compared relatively",
     "the mappers' own mapping_matrix is taken as input for the inversion sub-check (its content belongs to C06)",
+    "exact cancellation in the cancel sub-check relies on IEEE sign symmetry (x*u + y*v, cos even, sin odd) and on the closed-form centres being exactly negated under the mirror at zero origin (verified for every frame up to 6x6); the class frequency is reported by the T:has-Re==0!=Im / T:has-Im==0!=Re labels, and the preloaded route does not depend on it",
+    "state shared between transformers can only be observed within one process: the family sub-check puts the whole sequence inside one case so a failing case replays in a fresh process; a failure reported by another sub-check under such a change may depend on earlier cases of the same worker",
     "TransformerNUFFT, the w-tilde interferometer path and the PyLops linear-operator inversion are out of scope (external library / stubbed code)",
 ]
 TECHNIQUE = ("property-based testing (Hypothesis) against a dense closed-form Fourier operator in numpy, with "
-             "metamorphic relations (preload == direct, adjoint dot-product test, linearity)")
+             "metamorphic relations (preload == direct, adjoint dot-product test, linearity), in-case sequences of "
+             "transformers sharing everything but one attribute, and constructed exact-cancellation classes")
 
 EPS = 1.0e-3  # no_regularization_add_to_curvature_diag_value, passed explicitly
 FLOOR = 1.0e-280  # added to every tolerance scale: denormal inputs (products underflow) are compared absolutely
@@ -388,11 +404,346 @@ def body_inversion(case, ctx):
         ctx.label("end-to-end-skipped:transform-mismatch")
 
 
+# ---------------------------------------------------------------------------------------------
+# sub-check 4: several transformers built one after the other in one process (one case)
+# ---------------------------------------------------------------------------------------------
+@st.composite
+def family_case(draw):
+    """2-4 transformer configurations sharing frame shape, pixel scales, origin, baselines and the NUMBER of unmasked
+    pixels; a member differs from the base in exactly one thing: which pixels are unmasked ('layout'), the origin, the
+    pixel scales, one baseline, or nothing ('same')."""
+    h = draw(st.integers(1, 5))
+    w = draw(st.integers(2 if h == 1 else 1, 5))
+    cells = h * w
+    n = draw(st.integers(1, cells - 1))
+    base_cells = sorted(draw(st.lists(st.integers(0, cells - 1), min_size=n, max_size=n, unique=True)))
+    scales = draw(gens.pixel_scales())
+    origin = draw(gens.origins(mag=20.0))
+    uv = draw(baselines(max_k=5))
+    members = [{"kind": "base", "cells": base_cells, "pixel_scales": scales, "origin": origin, "uv": uv}]
+
+    def move_one(cur):
+        comp = [c for c in range(cells) if c not in cur]
+        out = list(cur)
+        out[draw(st.integers(0, len(out) - 1))] = comp[draw(st.integers(0, len(comp) - 1))]
+        return sorted(out)
+
+    for _ in range(draw(st.integers(1, 3))):
+        kind = draw(st.sampled_from(["layout", "layout", "layout", "layout", "origin", "scales", "baseline", "same"]))
+        mem = {"kind": kind, "cells": list(base_cells), "pixel_scales": list(scales), "origin": list(origin),
+               "uv": [list(b) for b in uv]}
+        if kind == "layout":
+            how = draw(st.sampled_from(["move-one", "mirror", "shift", "fresh"]))
+            if how == "mirror":
+                new = sorted((h - 1 - c // w) * w + (w - 1 - c % w) for c in base_cells)
+            elif how == "shift":
+                new = sorted(((c // w) * w + (c % w + 1) % w) for c in base_cells)
+            elif how == "fresh":
+                new = sorted(draw(st.lists(st.integers(0, cells - 1), min_size=n, max_size=n, unique=True)))
+            else:
+                new = move_one(base_cells)
+            if new == base_cells or any(new == m_["cells"] and m_["kind"] in ("base", "layout") for m_ in members):
+                new = move_one(new)
+            mem["cells"] = new
+            mem["how"] = how
+        elif kind == "origin":
+            o = draw(gens.origins(mag=20.0))
+            mem["origin"] = o if o != origin else [origin[0] + 0.5, origin[1]]
+        elif kind == "scales":
+            s = draw(gens.pixel_scales())
+            mem["pixel_scales"] = s if s != scales else [scales[0] * 2.0, scales[1]]
+        elif kind == "baseline":
+            i = draw(st.integers(0, len(uv) - 1))
+            b = [draw(_uv_component()), draw(_uv_component())]
+            mem["uv"][i] = b if b != uv[i] else [b[0] * 2.0, b[1]]
+        members.append(mem)
+    cols = draw(st.integers(1, 3))
+    mat = draw(st.lists(gens.reals(-3, 3), min_size=n * cols, max_size=n * cols))
+    return {"shape": [h, w], "members": members,
+            "image": draw(st.lists(gens.reals(-10, 10), min_size=n, max_size=n)),
+            "matrix": [mat[i * cols:(i + 1) * cols] for i in range(n)],
+            "vis": _complex_list(draw, len(uv)),
+            "preload_first": draw(st.booleans()),
+            "via_dataset": draw(st.lists(st.booleans(), min_size=len(members), max_size=len(members)))}
+
+
+def body_family(case, ctx):
+    import autoarray as aa
+    h, w = case["shape"]
+    img = np.asarray(case["image"], dtype=float)
+    mm = np.asarray(case["matrix"], dtype=float)
+    vis = np.asarray([complex(r, i) for r, i in case["vis"]], dtype=complex)
+    s_img = float(np.abs(img).sum()) + FLOOR
+    s_vis = float((np.abs(vis.real) + np.abs(vis.imag)).sum()) + FLOOR
+    tol_m = 1e-9 * (float(np.abs(mm).sum(axis=0).max(initial=0.0)) + FLOOR)
+    ctx.label("members:%d" % len(case["members"]))
+    order = (True, False) if case["preload_first"] else (False, True)
+    built = []
+    # phase 1: construct every transformer, one after the other, before any of them is used
+    specs = list(zip(case["members"], case["via_dataset"])) + [(dict(case["members"][0], kind="base-rebuilt"), False)]
+    kinds = set()
+    for mem, via_ds in specs:
+        kinds.add(mem["kind"])
+        m = np.ones((h, w), dtype=bool)
+        m.ravel()[np.asarray(mem["cells"], dtype=int)] = False
+        mask = aa.Mask2D(mask=m.copy(), pixel_scales=tuple(mem["pixel_scales"]), origin=tuple(mem["origin"]))
+        uv = np.asarray(mem["uv"], dtype=float).reshape(-1, 2)
+        grid_ref = dft.centres_radians(m, mem["pixel_scales"], mem["origin"])
+        a = dft.operator(grid_ref, uv)
+        for preload in order:
+            path = "preload" if preload else "direct"
+            if via_ds and preload:
+                # the dataset class builds its own transformer (class default preload_transform=True)
+                ds = aa.Interferometer(data=aa.Visibilities(visibilities=vis.copy()),
+                                       noise_map=aa.VisibilitiesNoiseMap(visibilities=np.full(len(vis), 1.0 + 1.0j)),
+                                       uv_wavelengths=uv.copy(), real_space_mask=mask, transformer_class=aa.TransformerDFT)
+                t = ds.transformer
+                ctx.label("built:via-dataset")
+            else:
+                t = aa.TransformerDFT(uv_wavelengths=uv.copy(), real_space_mask=mask, preload_transform=preload)
+            built.append((mem, path, mask, m, grid_ref, a, t))
+    for k in kinds:
+        ctx.label("member:%s" % k)
+    n_layouts = len({tuple(mem["cells"]) for mem in case["members"]})
+    nonzero = any(u != 0.0 or v != 0.0 for u, v in case["members"][0]["uv"])
+    ctx.label("layouts:%d" % n_layouts)
+    ctx.nt(n_layouts >= 2 and nonzero)
+    # phase 2: every transformer against the dense operator of ITS OWN configuration
+    for mem, path, mask, m, grid_ref, a, t in built:
+        kind = mem["kind"]
+        scale = float(np.abs(grid_ref).max(initial=0.0)) + max(mem["pixel_scales"]) * dft.ARCSEC_TO_RAD
+        ctx.close(np.asarray(t.grid), grid_ref, "family/%s/grid" % kind, rtol=1e-12, atol=1e-12 * scale,
+                  what="transformer grid vs closed form (member %s, %s)" % (kind, path))
+        v = np.asarray(t.visibilities_from(image=aa.Array2D(values=img.copy(), mask=mask)))
+        ctx.close(v, a @ img, "family/%s/%s/visibilities_from" % (kind, path), atol=1e-9 * s_img,
+                  what="visibilities_from vs A I of this member's own mask / origin / scales / baselines")
+        g = np.asarray(t.transform_mapping_matrix(mapping_matrix=mm.copy()))
+        ctx.close(g, a @ mm, "family/%s/%s/transform_mapping_matrix" % (kind, path), atol=tol_m,
+                  what="transform_mapping_matrix vs A M of this member's own configuration")
+        im = t.image_from(visibilities=aa.Visibilities(visibilities=vis.copy()))
+        ctx.close(np.asarray(im.native), dft.native_from_slim(m, dft.adjoint_real(a, vis)), "family/%s/image_from" % kind,
+                  atol=1e-9 * s_vis, what="image_from vs Re(A^H V) on this member's own mask (%s)" % path)
+
+
+# ---------------------------------------------------------------------------------------------
+# sub-check 5: exact cancellations (entries whose real or imaginary part is exactly zero)
+# ---------------------------------------------------------------------------------------------
+COL_KINDS = ["antisym-pair", "antisym", "sym-pair", "sym", "zero-sum", "zero", "generic"]
+
+
+def _exact_value():
+    """Non-zero values whose sums / negations are exact: eighths and small integers."""
+    return st.one_of(st.integers(1, 24).map(lambda k: k / 8.0), st.integers(1, 5).map(float)).flatmap(
+        lambda v: st.sampled_from([v, -v]))
+
+
+@st.composite
+def cancel_case(draw):
+    """Masks symmetric under a mirror map (point reflection about the mask origin, or a flip of one axis) with the
+    origin zero on the negated axes, so mirrored pixels have exactly negated coordinates; baselines compatible with
+    the mirror (point: any; x-flip: v = 0; y-flip: u = 0) so mirrored phases are exactly negated; matrix columns that
+    are exactly antisymmetric / symmetric under the mirror, sum exactly to zero, are zero, or generic."""
+    mirror = draw(st.sampled_from(["point", "point", "x-flip", "y-flip"]))
+    h = draw(st.integers(2 if mirror == "y-flip" else 1, 5))
+    w = draw(st.integers(2 if (mirror == "x-flip" or h == 1) else 1, 5))
+
+    def image_of(c):
+        i, j = c // w, c % w
+        if mirror in ("point", "y-flip"):
+            i = h - 1 - i
+        if mirror in ("point", "x-flip"):
+            j = w - 1 - j
+        return i * w + j
+
+    orbits = sorted({tuple(sorted((c, image_of(c)))) for c in range(h * w)})
+    pairs = [o for o in orbits if o[0] != o[1]]
+    keep = draw(st.lists(st.booleans(), min_size=len(orbits), max_size=len(orbits)))
+    chosen = [o for o, k in zip(orbits, keep) if k]
+    if not any(o[0] != o[1] for o in chosen):
+        chosen.append(pairs[draw(st.integers(0, len(pairs) - 1))])
+    chosen = sorted(set(chosen))
+    cells = sorted({c for o in chosen for c in o})
+    slim = {c: s for s, c in enumerate(cells)}
+    n = len(cells)
+    mask = [[(i * w + j) not in slim for j in range(w)] for i in range(h)]
+    exact_origin = draw(st.integers(0, 4)) > 0
+    oy = 0.0 if (exact_origin and mirror in ("point", "y-flip")) else draw(gens.reals(-5, 5))
+    ox = 0.0 if (exact_origin and mirror in ("point", "x-flip")) else draw(gens.reals(-5, 5))
+    uv = []
+    for _ in range(draw(st.integers(1, 5))):
+        kind = draw(st.sampled_from(["compatible", "compatible", "compatible", "compatible", "zero", "generic"]))
+        if kind == "zero":
+            uv.append([0.0, 0.0])
+        elif kind == "generic" or mirror == "point":
+            axis = draw(st.sampled_from(["both", "both", "u", "v"])) if mirror == "point" else "both"
+            b = [draw(_uv_component()), draw(_uv_component())]
+            uv.append([b[0], 0.0] if axis == "u" else ([0.0, b[1]] if axis == "v" else b))
+        elif mirror == "x-flip":
+            uv.append([draw(_uv_component()), 0.0])
+        else:
+            uv.append([0.0, draw(_uv_component())])
+    pair_orbits = [o for o in chosen if o[0] != o[1]]
+    cols = draw(st.integers(2, 4))
+    col_kinds, columns = [], []
+    for j in range(cols):
+        kind = draw(st.sampled_from(["antisym-pair", "antisym"])) if j == 0 else (
+            draw(st.sampled_from(["sym-pair", "sym"])) if j == 1 else draw(st.sampled_from(COL_KINDS)))
+        col = [0.0] * n
+        if kind in ("antisym", "sym", "antisym-pair", "sym-pair"):
+            orbs = chosen if kind in ("antisym", "sym") else [pair_orbits[draw(st.integers(0, len(pair_orbits) - 1))]]
+            for o in orbs:
+                a_ = draw(_exact_value())
+                if o[0] == o[1]:
+                    col[slim[o[0]]] = a_ if kind.startswith("sym") else 0.0
+                else:
+                    col[slim[o[0]]] = a_
+                    col[slim[o[1]]] = a_ if kind.startswith("sym") else -a_
+        elif kind == "zero-sum":
+            vals = [draw(_exact_value()) for _ in range(n - 1)]
+            col = vals + [-sum(vals)]
+        elif kind == "generic":
+            col = draw(st.lists(gens.reals(-3, 3), min_size=n, max_size=n))
+        col_kinds.append(kind)
+        columns.append(col)
+    k = len(uv)
+    vis = []
+    for _ in range(k):
+        vk = draw(st.sampled_from(["both", "both", "both", "re0", "re0", "im0", "im0", "zero"]))
+        re, im = draw(_exact_value()), draw(_exact_value())
+        vis.append([0.0 if vk in ("re0", "zero") else re, 0.0 if vk in ("im0", "zero") else im])
+    nz = draw(st.lists(gens.positives(0.1, 5.0), min_size=2 * k, max_size=2 * k))
+    split = draw(st.integers(1, cols - 1)) if draw(st.booleans()) else cols
+    return {"mirror": mirror, "mask": mask, "pixel_scales": draw(gens.pixel_scales()), "origin": [oy, ox], "uv": uv,
+            "matrix": [[columns[j][p] for j in range(cols)] for p in range(n)], "col_kinds": col_kinds,
+            "vis": vis, "noise": [[nz[2 * i], nz[2 * i + 1]] for i in range(k)],
+            "preload": draw(st.booleans()), "split": split}
+
+
+def _zero_pattern_labels(ctx, t, tag):
+    t = np.asarray(t)
+    re0 = bool(((t.real == 0) & (t.imag != 0)).any())
+    im0 = bool(((t.imag == 0) & (t.real != 0)).any())
+    ctx.label("%s:has-Re==0!=Im" % tag if re0 else "%s:no-Re==0!=Im" % tag)
+    ctx.label("%s:has-Im==0!=Re" % tag if im0 else "%s:no-Im==0!=Re" % tag)
+    if bool(((t.real == 0) & (t.imag == 0)).any()):
+        ctx.label("%s:has-exact-0+0j" % tag)
+    return re0, im0
+
+
+def body_cancel(case, ctx):
+    import autoarray as aa
+    from autoarray.inversion.inversion.interferometer import inversion_interferometer_util as iiu
+    from autoarray.inversion.inversion.interferometer.mapping import InversionInterferometerMapping
+    m, uv, mask, grid_ref, a, _ = _setup(case, ctx)
+    ctx.label("mirror:%s" % case["mirror"])
+    for ck in set(case["col_kinds"]):
+        ctx.label("col:%s" % ck)
+    mm = np.asarray(case["matrix"], dtype=float)
+    n, cols = mm.shape
+    vis = np.asarray([complex(r, i) for r, i in case["vis"]], dtype=complex)
+    noise = np.asarray([complex(r, i) for r, i in case["noise"]], dtype=complex)
+    if ((vis.real == 0) & (vis.imag != 0)).any():
+        ctx.label("vis:has-Re==0!=Im")
+    if ((vis.imag == 0) & (vis.real != 0)).any():
+        ctx.label("vis:has-Im==0!=Re")
+    want = a @ mm
+    tol = 1e-9 * (float(np.abs(mm).sum(axis=0).max(initial=0.0)) + FLOOR)
+    s_vis = float((np.abs(vis.real) + np.abs(vis.imag)).sum()) + FLOOR
+    want_img = dft.adjoint_real(a, vis)
+    tu = aa.util.transformer
+    phase = 2.0 * np.pi * (np.outer(grid_ref[:, 1], uv[:, 0]) + np.outer(grid_ref[:, 0], uv[:, 1]))
+
+    # (a) transformer outputs, both paths
+    natural = None
+    for preload in (True, False):
+        t, path = _transformer(ctx, aa, uv, mask, preload)
+        g = np.asarray(t.transform_mapping_matrix(mapping_matrix=mm.copy()))
+        ctx.close(g, want, "cancel/transform_mapping_matrix/%s" % path, atol=tol,
+                  what="transform_mapping_matrix vs A M (columns %s)" % ",".join(case["col_kinds"]))
+        if preload == bool(case["preload"]):
+            natural = g
+        for j in range(cols):
+            v = np.asarray(t.visibilities_from(image=aa.Array2D(values=mm[:, j].copy(), mask=mask)))
+            ctx.close(v, want[:, j], "cancel/visibilities_from/%s" % path, atol=tol,
+                      what="visibilities_from(column %d as image, %s) vs A I" % (j, case["col_kinds"][j]))
+        im = t.image_from(visibilities=aa.Visibilities(visibilities=vis.copy()))
+        ctx.close(np.asarray(im.slim), want_img, "cancel/image_from", atol=1e-9 * s_vis,
+                  what="image_from(V) vs Re(A^H V), visibilities with exactly zero real / imaginary parts (%s)" % path)
+    re0, im0 = _zero_pattern_labels(ctx, natural, "T")
+    # (b) util kernels with the reference grid / tables
+    ctx.close(tu.transformed_mapping_matrix_jit(mapping_matrix=mm.copy(), grid_radians=grid_ref.copy(), uv_wavelengths=uv.copy()),
+              want, "cancel/util/transformed_mapping_matrix_jit", atol=tol, what="transformed_mapping_matrix_jit vs A M")
+    ctx.close(tu.transformed_mapping_matrix_via_preload_jit_from(mapping_matrix=mm.copy(), preloaded_reals=np.cos(phase),
+                                                                 preloaded_imags=-np.sin(phase)),
+              want, "cancel/util/transformed_mapping_matrix_via_preload_jit_from", atol=tol, what="preload kernel vs A M")
+    ctx.close(tu.image_via_jit_from(n_pixels=n, grid_radians=grid_ref.copy(), uv_wavelengths=uv.copy(),
+                                    visibilities=np.stack([vis.real, vis.imag], axis=-1)),
+              want_img, "cancel/util/image_via_jit_from", atol=1e-9 * s_vis, what="image_via_jit_from vs Re(A^H V)")
+
+    # (c) a transformed matrix with the parities imposed exactly (a valid complex matrix in its own right): antisymmetric
+    # columns purely imaginary, symmetric columns purely real, zero columns 0+0j
+    t_forced = want.copy()
+    for j, ck in enumerate(case["col_kinds"]):
+        if ck.startswith("antisym"):
+            t_forced[:, j] = 1j * t_forced[:, j].imag
+        elif ck.startswith("sym"):
+            t_forced[:, j] = t_forced[:, j].real + 0j
+        elif ck == "zero":
+            t_forced[:, j] = 0.0
+    f_re0, f_im0 = _zero_pattern_labels(ctx, t_forced, "Tforced")
+    nonzero_b = any(u != 0.0 or v != 0.0 for u, v in uv)
+    ctx.nt(nonzero_b and (re0 or f_re0) and (im0 or f_im0))
+    d_f, _, sd_f, _ = dft.normal_equations(t_forced, vis, noise)
+    ctx.close(iiu.data_vector_via_transformed_mapping_matrix_from(transformed_mapping_matrix=t_forced.copy(),
+                                                                  visibilities=vis.copy(), noise_map=noise.copy()),
+              d_f, "cancel/util/data_vector", atol=1e-9 * (sd_f + FLOOR),
+              what="data_vector_via_transformed_mapping_matrix_from on a matrix with purely real / purely imaginary columns")
+    if natural is not None and natural.shape == want.shape:
+        d_n, _, sd_n, _ = dft.normal_equations(natural, vis, noise)
+        ctx.close(iiu.data_vector_via_transformed_mapping_matrix_from(transformed_mapping_matrix=natural.copy(),
+                                                                      visibilities=vis.copy(), noise_map=noise.copy()),
+                  d_n, "cancel/util/data_vector", atol=1e-9 * (sd_n + FLOOR),
+                  what="data_vector_via_transformed_mapping_matrix_from on the transformer's own output")
+
+    # (d) inversions: natural route (function-list objects through the transformer) and a preloaded transformed matrix
+    split = int(case["split"])
+    blocks = [mm[:, :split]] + ([mm[:, split:]] if split < cols else [])
+    noreg = list(range(cols))
+
+    def make_inv(preloads=None):
+        objs = [scene.build_linear_obj({"type": "func", "matrix": b.tolist(), "reg": None}, mask)[0] for b in blocks]
+        t, _ = _transformer(ctx, aa, uv, mask, bool(case["preload"]))
+        ds = aa.DatasetInterface(data=aa.Visibilities(visibilities=vis.copy()),
+                                 noise_map=aa.VisibilitiesNoiseMap(visibilities=noise.copy()), transformer=t)
+        kw = {} if preloads is None else {"preloads": preloads}
+        return InversionInterferometerMapping(dataset=ds, linear_obj_list=objs, settings=_settings(aa), **kw)
+
+    for route, inv, t_in in (("natural", make_inv(), None),
+                             ("preloaded", make_inv(aa.Preloads(operated_mapping_matrix=t_forced.copy())), t_forced)):
+        t_got = np.asarray(inv.operated_mapping_matrix)
+        if t_in is None:
+            ctx.close(t_got, want, "cancel/inversion/operated_mapping_matrix", atol=tol, what="operated_mapping_matrix vs A M")
+        else:
+            ctx.equal(t_got, t_in, "cancel/inversion/preloaded-operated_mapping_matrix", "preloaded transformed matrix is used as given")
+        if t_got.shape != want.shape:
+            continue
+        d1, f1, sd, sf = dft.normal_equations(t_got, vis, noise, noreg=noreg, eps=EPS)
+        ctx.close(np.array(inv.data_vector, dtype=float), d1, "cancel/inversion/%s/data_vector" % route, atol=1e-9 * (sd + FLOOR),
+                  what="data_vector vs real+imaginary Gram products of the transformed matrix (%s)" % route)
+        f_got = np.array(inv.curvature_matrix, dtype=float)
+        ctx.close(f_got, f1, "cancel/inversion/%s/curvature_matrix" % route, atol=1e-9 * (sf + FLOOR),
+                  what="curvature_matrix vs Tr^T Wr Tr + Ti^T Wi Ti + eps (%s)" % route)
+
+
 SUBCHECKS = [
     SubCheck("transform", body_transform, strategy=transform_case(),
-             examples={"quick": 3000, "thorough": 24000}, shards={"quick": 6, "thorough": 16}),
+             examples={"quick": 2000, "thorough": 24000}, shards={"quick": 4, "thorough": 16}),
     SubCheck("matrix", body_matrix, strategy=matrix_case(),
-             examples={"quick": 2500, "thorough": 20000}, shards={"quick": 5, "thorough": 16}),
+             examples={"quick": 1500, "thorough": 20000}, shards={"quick": 3, "thorough": 16}),
     SubCheck("inversion", body_inversion, strategy=inversion_case(),
-             examples={"quick": 2000, "thorough": 12000}, shards={"quick": 5, "thorough": 16}),
+             examples={"quick": 1200, "thorough": 12000}, shards={"quick": 3, "thorough": 16}),
+    SubCheck("family", body_family, strategy=family_case(),
+             examples={"quick": 900, "thorough": 8000}, shards={"quick": 3, "thorough": 16}),
+    SubCheck("cancel", body_cancel, strategy=cancel_case(),
+             examples={"quick": 900, "thorough": 8000}, shards={"quick": 3, "thorough": 16}),
 ]
